@@ -357,8 +357,19 @@ func (r *renderer) list(open, close string, n int, el func(int) string) string {
 				r.St.Comments++
 			}
 			sb.WriteString("\n")
-			if r.l.Pick("multiline-blank", 8) == 7 {
+			switch r.l.Pick("multiline-blank", 12) {
+			case 7, 8:
 				sb.WriteString("\n")
+			case 9: // a run of blank lines, which the formatter squeezes
+				sb.WriteString("\n\n\n")
+				r.St.BlankRuns++
+			case 10: // a comment line of its own followed by blank lines
+				sb.WriteString(ind + "// own line\n\n\n")
+				r.St.Comments++
+				r.St.BlankRuns++
+			case 11:
+				sb.WriteString(ind + "// own line  \n")
+				r.St.Comments++
 			}
 		}
 		sb.WriteString(strings.Repeat("    ", r.depth) + close)
@@ -410,7 +421,7 @@ func (r *renderer) line(s string) {
 		r.St.OddIndent++
 	}
 	r.sb.WriteString(ind + s)
-	switch r.l.Pick("line-end", 10) {
+	switch r.l.Pick("line-end", 12) {
 	case 7:
 		r.sb.WriteString(" // note")
 		r.St.Comments++
@@ -418,6 +429,12 @@ func (r *renderer) line(s string) {
 		r.sb.WriteString("  ")
 	case 9:
 		r.sb.WriteString("// x")
+		r.St.Comments++
+	case 10: // a comment followed by blanks
+		r.sb.WriteString(" // trailing blanks  ")
+		r.St.Comments++
+	case 11:
+		r.sb.WriteString("\t//\ttabs \t")
 		r.St.Comments++
 	}
 	r.sb.WriteString("\n")
